@@ -119,6 +119,18 @@ func main() {
 				}()
 			}
 		}
+		if *tier == "thorough" && f != nil && os.Getenv("WASPCHECK_NO_SELFTEST") == "" {
+			st := selfTest(id, *repo, *verif, *tier)
+			det := 0
+			for _, x := range st {
+				if d, ok := x["detected"].(bool); ok && d {
+					det++
+				}
+			}
+			r.Extra["selftest"] = st
+			r.Extra["selftest_note"] = fmt.Sprintf("informational, not part of the verdict: %d of %d seeded changes relevant to this property make this check fail when applied to a throw-away copy of the analysed tree", det, len(st))
+			fmt.Printf("%s selftest: %d/%d seeded changes detected\n", id, det, len(st))
+		}
 		if *explain != "" {
 			fmt.Printf("re-analysed %s on the current tree; obligations of this property follow\n", id)
 		}
